@@ -24,32 +24,49 @@ func verifNondetKey() *V2Key {
 	return key
 }
 
-// W: one inductive step of the replay window from an arbitrary pre-state.
+// W: one step of the replay window from an arbitrary reachable state, through the public API only: the state "newest
+// accepted = cur" is what a fresh reader holds after accepting one frame stamped cur (cur = 0: indistinguishable from
+// "none yet", as in the code and in the reference); then the frame under test (ts); then a probe frame that observes
+// the state the reader is in afterwards. What the caller does with a returned frame (here: its timestamp field is
+// overwritten) does not influence the reader.
 func verifHarness_C07_window(n int) {
 	cur := verifNondetU64()
 	ts := verifNondetU64()
+	probe := verifNondetU64()
 	verifAssume(cur < 1<<48)
 	verifAssume(ts < 1<<48)
+	verifAssume(probe < 1<<48)
 	key := verifNondetKey()
-	wire := verifSignedWire(key, n, ts)
+	wire := verifSignedWire(key, 1, cur)
+	wire = append(wire, verifSignedWire(key, n, ts)...)
+	wire = append(wire, verifSignedWire(key, 1, probe)...)
 	rd := &Reader{ByteReader: &verifChunkReader{data: wire}, InKey: key}
 	verifAssert(rd.Initialize() == nil, "C07/W/init")
-	rd.curReadSignatureTime = cur
+	f0, err0 := rd.Read()
+	verifAssert(err0 == nil && f0 != nil, "C07/W/first-frame-of-a-link-accepted")
+	if g, ok := f0.(*V2Frame); ok {
+		g.SignatureTimestamp = verifNondetU64() // the caller owns the returned frame
+	}
 	fr, err := rd.Read()
 	// spec: refused exactly when more than 1 000 000 ticks older than the newest accepted (cur == 0: none yet)
 	refuse := verifAnd(cur > 0, ts+1000000 < cur)
 	verifObserveBool("C07/W/refused", err != nil)
 	verifAssert(verifIff(err != nil, refuse), "C07/W/decision")
+	newest := cur
 	if err != nil {
 		verifAssert(fr == nil, "C07/W/refused-no-frame")
 		verifAssert(verifIsReadError(err), "C07/W/refused-is-parse-error")
-		verifAssert(rd.curReadSignatureTime == cur, "C07/W/refused-state-unchanged")
 	} else {
 		verifAssert(fr != nil, "C07/W/accepted-frame")
-		newest := verifIteU64(ts > cur, ts, cur)
-		verifAssert(rd.curReadSignatureTime == newest, "C07/W/accepted-state-is-newest")
+		newest = verifIteU64(ts > cur, ts, cur)
+		if g, ok := fr.(*V2Frame); ok {
+			g.SignatureTimestamp = verifNondetU64()
+		}
 	}
-	verifObserveU64("C07/W/cur-after", rd.curReadSignatureTime)
+	// the state afterwards, observed through the next frame: refused frames left it alone, accepted ones made it
+	// the newer of the two
+	_, err2 := rd.Read()
+	verifAssert(verifIff(err2 != nil, verifAnd(newest > 0, probe+1000000 < newest)), "C07/W/state-afterwards-is-the-newest-accepted")
 	verifReach("C07/W")
 }
 
@@ -111,12 +128,14 @@ func verifHarness_C07_forged(n int) {
 	ts := verifNondetU64()
 	verifAssume(ts < 1<<48)
 	wire = append(wire, verifSignedWire(key, 1, ts)...)
+	// the pre-state "newest accepted = cur" is set up by a first, correctly signed frame stamped cur
+	wire = append(verifSignedWire(key, 1, cur), wire...)
 	rd := &Reader{ByteReader: &verifChunkReader{data: wire}, InKey: key}
 	verifAssert(rd.Initialize() == nil, "C07/F/init")
-	rd.curReadSignatureTime = cur
+	_, err0 := rd.Read()
+	verifAssert(err0 == nil, "C07/F/first-frame-of-a-link-accepted")
 	fr, err := rd.Read()
 	verifAssert(err != nil && fr == nil, "C07/F/forged-frame-refused")
-	verifAssert(rd.curReadSignatureTime == cur, "C07/F/forged-frame-leaves-window-state-unchanged")
 	_, err = rd.Read()
 	refuse := verifAnd(cur > 0, ts+1000000 < cur)
 	verifAssert(verifIff(err != nil, refuse), "C07/F/next-frame-judged-against-unchanged-state")
